@@ -1,7 +1,9 @@
 (* Extraction of the C11 model: ExtrOcamlBasic only, no Extract Constant. *)
 Require Import ExtrOcamlBasic.
-From SharkV Require Import C11Model.
+From SharkV Require Import C11Model C11DirectModel.
 Extraction "c11_model.ml" cma_update select recombine cov_update elitist_step elitist_run penalized_eval classify
   chol_update chol_loop fquad lmulz cmsa_cov cmsa_sigma cmsa_mean cmsa_update
   chrom_sigma chrom_round chrom_offspring chrom_parent active_rate ecma_chrom_step
-  vd_first vd_second vd_D_update vd_v_update vd_cov vd_update vd_sample.
+  vd_first vd_second vd_D_update vd_v_update vd_cov vd_update vd_sample
+  sd_init sd_step sd_run cem_noise_const cem_noise_linear cem_sample cem_update cem_select_update cem_step cem_run
+  cma_step cma_run cmsa_step cmsa_run.
